@@ -48,7 +48,7 @@ ASSUMPTIONS = [
   'values of trigger-formula data columns are compared too (a rename must not recalculate them)',
 ]
 BUDGET = {'quick': dict(examples=640, shards=16, max_seconds=40),
-          'thorough': dict(examples=9000, shards=16, max_seconds=540)}
+          'thorough': dict(examples=9000, shards=16, max_seconds=1800)}
 SHRINK_BUDGET = {'quick': 40, 'thorough': 200}
 
 TABLE_POOL = ['Src', 'People', 'Orders', 'Items2', 'Dst', 'Mid', 'Addr_book', 'Zeta', 'Tasks', 'Proj']
